@@ -312,6 +312,10 @@ class Sym:
         if k == "call" and isinstance(x[1], str):
             if re.search(r"::saturating_sub$", x[1]) and len(x[3]) == 2:
                 return ("sat", self.term(x[3][0], depth + 1), self.term(x[3][1], depth + 1))
+            if re.search(r"::checked_sub$", x[1]) and len(x[3]) == 2:
+                # as a number this is the payload on the Some edge (the provenance expression looks through the `Some(x)` binding);
+                # the accompanying variant fact contributes a >= b
+                return ("sub", self.term(x[3][0], depth + 1), self.term(x[3][1], depth + 1))
             if re.search(r"::abs_diff$", x[1]) and len(x[3]) == 2:
                 ta, tb = self.term(x[3][0], depth + 1), self.term(x[3][1], depth + 1)
                 return ("add", ("sat", ta, tb), ("sat", tb, ta))
